@@ -314,7 +314,7 @@ def fptr(name):
 def lk(instance=MU, cls='mu'):
     return ('lk', cls, instance)
 
-def entries(mod, K):
+def entries(mod, K, full=False):
     """(label, function, args, ghost, expectation at exit) for every way the library changes a mutex word."""
     WT = Ptr('glob:' + _table_global(mod, 'nsync_writer_type_'), ())
     RT = Ptr('glob:' + _table_global(mod, 'nsync_reader_type_'), ())
@@ -339,17 +339,20 @@ def entries(mod, K):
     NOTE = Ptr('arg:cancel_note', ())
     for mode in ('W', 'R'):
         for cond in (0, COND):
-            for note in (NOTE,):
+            for note in ((NOTE, 0) if full else (NOTE,)):
                 add('nsync_mu_wait_with_deadline[%s,cond=%s,note=%s]' % (mode, 'NULL' if cond == 0 else 'f', 'NULL' if note == 0 else 'n'),
                     'nsync_mu_wait_with_deadline', [MU, cond, TOP, TOP, TOP, TOP, note], mode, {'hold': mode}, nn=[COND, NOTE])
         add('nsync_mu_wait[%s]' % mode, 'nsync_mu_wait', [MU, COND, TOP, TOP], mode, {'hold': mode}, nn=[COND])
-        for note in (NOTE,):
+        for note in ((NOTE, 0) if full else (NOTE,)):
             add('nsync_cv_wait_with_deadline[%s,note=%s]' % (mode, 'NULL' if note == 0 else 'n'),
                 'nsync_cv_wait_with_deadline', [CV, MU, TOP, TOP, note], mode, {'hold': mode}, nn=[CV, NOTE])
         add('nsync_cv_wait[%s]' % mode, 'nsync_cv_wait', [CV, MU], mode, {'hold': mode}, nn=[CV])
     for (l, u, mode) in (('nsync_mu_lock', 'nsync_mu_unlock', 'W'), ('nsync_mu_rlock', 'nsync_mu_runlock', 'R')):
         add('nsync_cv_wait_with_deadline_generic[%s/%s]' % (l, u), 'nsync_cv_wait_with_deadline_generic',
             [CV, MU, fptr(l), fptr(u), TOP, TOP, 0], mode, {'hold': mode}, nn=[CV])
+        if full:
+            add('nsync_cv_wait_with_deadline_generic[%s/%s,note=n]' % (l, u), 'nsync_cv_wait_with_deadline_generic',
+                [CV, MU, fptr(l), fptr(u), TOP, TOP, NOTE], mode, {'hold': mode}, nn=[CV, NOTE])
         add('nsync_wait_n[%s/%s]' % (l, u), 'nsync_wait_n', [MU, fptr(l), fptr(u), TOP, TOP, TOP, Ptr('arg:waitable', ())], mode, {'hold': mode},
             nn=[Ptr('arg:waitable', ())])
     E.append({'label': 'nsync_cv_wait_with_deadline_generic[client lock]', 'fn': 'nsync_cv_wait_with_deadline_generic',
@@ -389,10 +392,13 @@ def _table_global(mod, ptrname):
 
 _RESULT = {}
 
+def _full(ctx):
+    return getattr(ctx, 'tier', 'quick') == 'thorough'
+
 def _pickle_path(ctx):
     import os, hashlib
     src = b''.join(open(os.path.join(os.path.dirname(os.path.abspath(__file__)), f), 'rb').read() for f in ('symex.py', 'mumodel.py', 'util.py', 'ir.py', 'cfg.py'))
-    return os.path.join(ctx.facts, 'mueng-%s.pkl' % hashlib.sha256(src).hexdigest()[:12])
+    return os.path.join(ctx.facts, 'mueng-%s%s.pkl' % (hashlib.sha256(src).hexdigest()[:12], '-full' if _full(ctx) else ''))
 
 def try_load(ctx):
     """Load the cached interpreter result (keyed by the IR facts directory = hash of the tree, and by the engine sources) together with the
@@ -426,7 +432,7 @@ def analyse(ctx, engine_cls=MuEngine):
     sys.setrecursionlimit(200000)
     K = ctx.probe
     eng = engine_cls(mod, K)
-    ents, missing = entries(mod, K)
+    ents, missing = entries(mod, K, full=_full(ctx))
     if missing:
         raise AnalysisBroken('mutex entry point(s) not found in the library IR: %s' % ', '.join(sorted(set(missing))))
     runs = []
